@@ -19,6 +19,7 @@ mod kygen;
 mod mmodel;
 mod obs;
 mod procsim;
+mod refparse;
 mod rng;
 
 use std::io::Write;
